@@ -18,7 +18,9 @@ theorem G01_roll_translated :
 `int64` arithmetic cannot wrap (sizes are far below 2⁶²). -/
 theorem G01_rolloverGuard (full : Bool) (size len : BitVec 64) (max : BitVec 32)
     (hs : size.toNat < 2 ^ 62) (hlen : len.toNat < 2 ^ 62) :
-    Funcs.rolloverGuard full size len max = (full || decide (size.toNat + len.toNat > max.toNat)) := by
+    Funcs.rolloverGuard (f_curSeg_meta_Full := full) (f_curSeg_size := size)
+        (f_opts_maxSegmentSize := max) (len_p0 := len)
+      = (full || decide (size.toNat + len.toNat > max.toNat)) := by
   unfold Funcs.rolloverGuard
   have hm := max.isLt
   rw [slt_toNat _ _ (by bv_omega) (by bv_omega)]
@@ -31,8 +33,8 @@ theorem G01_rolloverGuard (full : Bool) (size len : BitVec 64) (max : BitVec 32)
 `MState.writeRecord` (`s.full || s.size + data.length > st.cfg.maxSeg`). -/
 theorem G01_rolloverGuard_model (s : MSeg) (data : Bytes) (cfg : MCfg)
     (hm : cfg.maxSeg < 2 ^ 32) (hs : s.size < 2 ^ 62) (hd : data.length < 2 ^ 62) :
-    Funcs.rolloverGuard s.full (BitVec.ofNat 64 s.size) (BitVec.ofNat 64 data.length)
-        (BitVec.ofNat 32 cfg.maxSeg)
+    Funcs.rolloverGuard (f_curSeg_meta_Full := s.full) (f_curSeg_size := BitVec.ofNat 64 s.size)
+        (f_opts_maxSegmentSize := BitVec.ofNat 32 cfg.maxSeg) (len_p0 := BitVec.ofNat 64 data.length)
       = (s.full || s.size + data.length > cfg.maxSeg) := by
   have e1 : (BitVec.ofNat 64 s.size).toNat = s.size := by
     rw [BitVec.toNat_ofNat]; exact Nat.mod_eq_of_lt (by omega)
